@@ -619,8 +619,59 @@ def is_nontrivial(sc):
     return True
 
 
+def exec_loop(task, cd):
+    """the tree of spec/LoopTree.tla (a link that leads back to the root) and the four counts of one (n, m)"""
+    from harness import inproc
+    d = os.path.join(cd.home, 'D')
+    os.makedirs(os.path.join(d, 's'))
+    with open(os.path.join(d, 'a'), 'w') as fh:
+        fh.write('x\n')
+    os.symlink('..', os.path.join(d, 's', 'up'))
+    r = task['rec']
+    opt = '-recursive -min-depth %d -max-depth %d' % (r['n'], r['m'])
+    lines = ['[assert]',
+             'dir-contents -rel-home D : %s num-files == %d' % (opt, r['all'] + (1 if task.get('wrong') else 0)),
+             'dir-contents -rel-home D : %s -selection type file num-files == %d' % (opt, r['files']),
+             'dir-contents -rel-home D : %s -selection type dir num-files == %d' % (opt, r['dirs']),
+             'dir-contents -rel-home D : %s -selection type symlink num-files == %d' % (opt, r['links'])]
+    cd.write({'c.case': '\n'.join(lines) + '\n'})
+    o = inproc.run_main(['c.case'], cd)
+    return dict(exit=o['exit'], exception=o['exception'], ident=(o['stdout'].splitlines() or [''])[0],
+                stderr=o['stderr'][:600], text='\n'.join(lines))
+
+
+def check_loop_tree(ctx):
+    """a symbolic link back to a directory on the path from the root: the unfolding down to -max-depth"""
+    depth = 4 if ctx.tier == 'quick' else 6
+    res = ctx.tlc('LoopTree', 'SPECIFICATION Spec\nCONSTANT MaxDepth = %d\nINVARIANT BreadthFirst\nINVARIANT WithinLimit\n'
+                              'INVARIANT Alternates\nINVARIANT Export\nCHECK_DEADLOCK FALSE\n' % depth,
+                  workers=1, name='mc-loop-tree', coverage=True)
+    ctx.require_coverage(res, ['Visit'])
+    recs = res.printed_json('LOOP')
+    if len(recs) != (depth + 1) * (depth + 2) // 2:
+        raise core.MachineryFailure('LoopTree exported %d records' % len(recs))
+    tasks = [dict(rec=r) for r in recs] + [dict(rec=recs[-1], wrong=True)]
+    with ctx.pool(workers=8) as pool:
+        obs = pool.map('harness.props.c15:exec_loop', tasks, deadline=60, chunk=2)
+    bad = 0
+    for t, o in zip(tasks, obs):
+        ctx.count()
+        ctx.nontrivial('loop:%d:%d' % (t['rec']['n'], t['rec']['m']))
+        if t.get('wrong'):
+            if o.get('ident') != 'FAIL':
+                raise core.MachineryFailure('negative control (loop tree): a wrong count was not refuted: %s' % o)
+            ctx.cov['negative_controls_rejected'] += 1
+        elif o.get('exit') != 0 or o.get('ident') != 'PASS':
+            bad += 1
+            ctx.fail('Tree:loop-link -min-depth %d -max-depth %d' % (t['rec']['n'], t['rec']['m']),
+                     dict(kind='loop', task=t, observed=o))
+    ctx.cov['traces_validated_against_impl'] += len(tasks)
+    ctx.cov.setdefault('replay', {})['a link back to the root, unfolded to -max-depth'] = dict(cases=len(tasks), disagreements=bad)
+
+
 def run(ctx):
     quick = ctx.tier == 'quick'
+    check_loop_tree(ctx)
     consts = dict(QUICK if quick else THOROUGH)
     consts['ListPick'] = ctx.seed % consts['ListMod']      # which slice of the longest lists
     consts['ExtraPick'] = ctx.seed % consts['ExtraMod']    # ... and of the biggest trees
@@ -962,6 +1013,14 @@ def samples(ctx, pop, pop_obs, tree_tasks, tree_obs):
 
 def replay(ctx, rec):
     r = rec['record']
+    if r.get('kind') == 'loop':
+        with ctx.pool(workers=1) as pool:
+            o = pool.map('harness.props.c15:exec_loop', [r['task']], deadline=60)[0]
+        print(json.dumps(dict(task=r['task'], observed=o), indent=1))
+        if o.get('exit') != 0 or o.get('ident') != 'PASS':
+            print('VIOLATION property=C15 replay=(given)')
+            return 1
+        return 0
     sc = r['sc']
     with ctx.pool(workers=1) as pool:
         if r['kind'] == 'populate':
